@@ -12,6 +12,12 @@
 int
 main(int argc, String *argv)
 {
+	int	status;
+
 	osFixCmdLine(&argc, &argv);
-	return compCmd(argc, argv);
+	status = compCmd(argc, argv);
+
+	/* Only the low 8 bits of the status reach the parent process:
+	 * 256 errors must not look like success. */
+	return (status < 0 || status > 255) ? 255 : status;
 }
